@@ -128,9 +128,10 @@ Section FlagPass.
     | [] => True
     | x :: r => pre_ok t r /\
       match bparent x with
-      | None => fchild (bst x) = false
+      | None => True
       | Some p => match find_blk p r with
-                  | Some y => if (p =? t)%N then failed (bst y) = v else fchild (bst x) = failed (bst y)
+                  | Some y => if (p =? t)%N then failed (bst y) = v
+                              else failed (bst y) = true -> fchild (bst x) = true
                   | None => False end
       end
     end.
@@ -144,22 +145,23 @@ Section FlagPass.
     pose proof (gpass_find f stop t r Wr) as GF.
     destruct (gpass f stop t r) as [o ct] eqn:G. simpl in GF, IHr.
     assert (K : match bparent x with
-      | None => fchild (bst (if vis ct x then with_st x (f (bst x)) else x)) = false
+      | None => True
       | Some p => match find_blk p o with
-                  | Some y => fchild (bst (if vis ct x then with_st x (f (bst x)) else x)) = failed (bst y)
+                  | Some y => failed (bst y) = true ->
+                              fchild (bst (if vis ct x then with_st x (f (bst x)) else x)) = true
                   | None => False end
       end).
-    { unfold vis. destruct (bparent x) as [p|] eqn:P; [|exact H].
+    { unfold vis. destruct (bparent x) as [p|] eqn:P; [|exact I].
       destruct (find_blk p r) as [y|] eqn:Fy; [|contradiction].
       destruct (GF p y Fy) as [F1 F2]. rewrite F1, F2.
       destruct (N.eqb_spec p t) as [E|E]; simpl.
-      - rewrite A1. destruct (vis ct y); simpl; auto.
-        destruct (stop (bst y)) eqn:St; [rewrite A3; auto | rewrite A2; auto].
+      - rewrite A1. destruct (vis ct y); simpl; [|congruence].
+        destruct (stop (bst y)) eqn:St; [rewrite A3; auto; congruence | rewrite A2; auto].
       - destruct (vis ct y) eqn:Vy; simpl; auto.
         destruct (stop (bst y)) eqn:St; simpl.
         + rewrite A3; auto.
         + rewrite A1, A2; auto. }
-    destruct (vis ct x) eqn:Vx; simpl; split; auto.
+    destruct (vis ct x) eqn:Vx; simpl; split; auto; destruct (bparent x); auto.
   Qed.
 End FlagPass.
 
